@@ -80,7 +80,9 @@ class IterModel:
 
     def interp(self, name: str) -> Interp:
         sc = (self.N, Lin.sym("N")) if self.symbolic else None
-        return Interp(self.methods[name]["mir"], name, self.cursors, self.table_fn, self.own, sym_const=sc)
+        summarised = {"next", "nth", "size_hint", "next_back", "nth_back", "len", "clone", "fmt", "get", "iter"}
+        helpers = {A._strip_generics(f["def"]): f["mir"] for nm, f in self.methods.items() if nm not in summarised and f.get("mir") and f.get("def")}
+        return Interp(self.methods[name]["mir"], name, self.cursors, self.table_fn, self.own, sym_const=sc, helpers=helpers)
 
     symbolic = False
 
@@ -342,6 +344,19 @@ def length_only_interpolated(gen) -> Optional[dict]:
             return {"ok": False, "fn": gen.short(p), "bad": ["no `let n = <vec>.len()` found"]}
         bad = []
         n_interp = 0
+        thresholds: List[int] = []
+
+        def const_of(e):
+            e = H.strip(e)
+            v = H.lit_value(e, "int")
+            if v is not None:
+                return v
+            if isinstance(e, dict) and e.get("k") == "path" and e.get("value") is not None:
+                try:
+                    return int(e["value"])
+                except (TypeError, ValueError):
+                    return None
+            return None
 
         def visit(n, parent_call_def):
             nonlocal n_interp
@@ -351,6 +366,23 @@ def length_only_interpolated(gen) -> Optional[dict]:
                 return
             if not isinstance(n, dict):
                 return
+            if n.get("k") == "bin" and n.get("op") in ("<", "<=", ">", ">=", "==", "!="):
+                # the length compared with an integer constant: a threshold (the generated code has two shapes)
+                l, r = H.strip(n["l"]), H.strip(n["r"])
+                for a_, b_, flipped in ((l, r, False), (r, l, True)):
+                    if isinstance(a_, dict) and a_.get("k") == "local" and a_.get("id") in lens and const_of(b_) is not None:
+                        t_ = const_of(b_)
+                        op_ = n["op"]
+                        if flipped:
+                            op_ = {"<": ">", ">": "<", "<=": ">=", ">=": "<="}.get(op_, op_)
+                        # split points s: the generated code has one shape for N < s and one for N >= s
+                        if op_ in ("<=", ">"):
+                            thresholds.append(t_ + 1)
+                        elif op_ in ("<", ">="):
+                            thresholds.append(t_)
+                        else:
+                            thresholds.extend([t_, t_ + 1])
+                        return
             if n.get("k") == "local" and n.get("id") in lens:
                 if parent_call_def == "quote::to_tokens::ToTokens::to_tokens":
                     n_interp += 1
@@ -375,7 +407,8 @@ def length_only_interpolated(gen) -> Optional[dict]:
                 visit(v, pc)
 
         visit(tree, None)
-        return {"ok": not bad and n_interp > 0, "fn": gen.short(p), "bad": bad, "interpolations": n_interp}
+        return {"ok": not bad and not thresholds and n_interp > 0, "fn": gen.short(p), "bad": bad, "interpolations": n_interp,
+                "thresholds": sorted(set(thresholds)), "only_thresholds": not bad and n_interp > 0 and bool(thresholds)}
     return None
 
 
@@ -531,8 +564,29 @@ def C05(infos: List[EnumInfo], ctx: dict):
         gen = G.Gen(ctx["units"])
         gen_uniform = length_only_interpolated(gen)
         if gen_uniform and not gen_uniform["ok"]:
-            out.append(Violation("C05", "the generator never branches on the number of variants; it only interpolates it into the template", "C05:generator-branches-on-length",
-                                 "%s uses the length local outside a template interpolation: %s" % (gen_uniform["fn"], gen_uniform["bad"][:3]), {"generator_fn": gen_uniform["fn"]}))
+            covered = False
+            if gen_uniform.get("only_thresholds"):
+                # the generator compares the length with constants and otherwise only interpolates it: the generated code has one
+                # shape per interval; the proofs above hold per witness, and every interval must contain a witness
+                ns = sorted(set(m_.N for _i, m_ in analysed))
+                ts = gen_uniform["thresholds"]
+                cuts = sorted(set(ts))
+                intervals = []
+                lo_ = 0
+                for c_ in cuts:
+                    if c_ > lo_:
+                        intervals.append((lo_, c_ - 1))
+                        lo_ = c_
+                intervals.append((lo_, None))
+                empty = [iv for iv in intervals if not any(iv[0] <= n_ and (iv[1] is None or n_ <= iv[1]) for n_ in ns)]
+                gen_uniform["intervals"] = intervals
+                gen_uniform["intervals_without_witness"] = empty
+                covered = not empty
+            if not covered:
+                out.append(Violation("C05", "the generator never branches on the number of variants (or every length interval it distinguishes contains an analysed witness)", "C05:generator-branches-on-length",
+                                     "%s uses the length local outside a template interpolation: %s%s" % (gen_uniform["fn"], gen_uniform["bad"][:3],
+                                                                                                      "; no witness with N in %s" % gen_uniform.get("intervals_without_witness") if gen_uniform.get("intervals_without_witness") else ""),
+                                     {"generator_fn": gen_uniform["fn"], "thresholds": gen_uniform.get("thresholds")}))
     except ToolError:
         pass
     all_obs += sym_obs
